@@ -18,6 +18,10 @@ class SimStepCap(Exception):
     """The run exceeded its step cap."""
 
 
+class SimLivelock(Exception):
+    """The system under test keeps the loop busy without virtual time advancing (a zero-delay busy loop)."""
+
+
 class _Selector:
     def __init__(self, loop):
         self._loop = loop
@@ -43,6 +47,9 @@ class SimLoop(asyncio.BaseEventLoop):
         self.set_exception_handler(self._on_exception)
         self.on_exception = None
         self.on_step = None  # callable(step number), called before each loop iteration
+        self._stall_t = None
+        self._stall_n = 0
+        self.stall_cap = 20000
         self.force_running = False  # makes is_running() report True between iterations (foreign-thread model)
 
     def is_running(self):
@@ -78,6 +85,13 @@ class SimLoop(asyncio.BaseEventLoop):
             raise SimStepCap(f"step cap {self.step_cap} exceeded at t={self._now}")
         if self.on_step is not None:
             self.on_step(self.steps)
+        if self._now != self._stall_t:
+            self._stall_t = self._now
+            self._stall_n = 0
+        else:
+            self._stall_n += 1
+            if self._stall_n > self.stall_cap:
+                raise SimLivelock(f"{self._stall_n} loop iterations at t={self._now} without the clock advancing")
         super()._run_once()
 
     def _on_exception(self, loop, context):
